@@ -240,5 +240,7 @@ def run(tier, seed, part=None):
                                    label=f"at{gen}/{extra}/d{depth}/v{dev}")
             chk.add_explorer(f"at{gen}" + ("/pausing" if extra.get("pausing") else ""), SPEC, params, res,
                              {"depth": depth, "deviations": dev, **extra})
+    chk.add_audit(SPEC, {"gen": 4, "max_send": 3}, 5, 1, limit=3000 if tier == "thorough" else 600)
+    chk.add_audit(SPEC, {"gen": 5, "max_send": 3, "pausing": True, "adv": False}, 5, 1, limit=3000 if tier == "thorough" else 600)
     run_families(chk, tier)
     return chk.finish()
